@@ -39,9 +39,9 @@ func fingerprint(p *Prog, fn *ssa.Function) string {
 	}
 	q := func(pk *types.Package) string { return pk.Path() }
 	var parts []string
-	sig := types.TypeString(fn.Signature, q)
+	sig := typeString(fn.Signature, q)
 	if r := fn.Signature.Recv(); r != nil {
-		sig = types.TypeString(r.Type(), q) + "." + sig
+		sig = typeString(r.Type(), q) + "." + sig
 	}
 	parts = append(parts, "sig:"+sig)
 	var items []string
@@ -55,7 +55,7 @@ func fingerprint(p *Prog, fn *ssa.Function) string {
 					continue
 				}
 				if c, ok := (*op).(*ssa.Const); ok && c.Value != nil {
-					items = append(items, "k:"+types.TypeString(c.Type(), q)+"="+c.Value.ExactString())
+					items = append(items, "k:"+typeString(c.Type(), q)+"="+c.Value.ExactString())
 				}
 			}
 			switch x := in.(type) {
@@ -66,20 +66,20 @@ func fingerprint(p *Prog, fn *ssa.Function) string {
 				tn, f := structKey(x.X.Type(), x.Field)
 				items = append(items, "f:"+tn+"."+f)
 			case *ssa.Alloc:
-				items = append(items, "a:"+types.TypeString(x.Type(), q))
+				items = append(items, "a:"+typeString(x.Type(), q))
 			case *ssa.MakeInterface:
-				items = append(items, "mi:"+types.TypeString(x.X.Type(), q))
+				items = append(items, "mi:"+typeString(x.X.Type(), q))
 			case *ssa.TypeAssert:
-				items = append(items, "ta:"+types.TypeString(x.AssertedType, q))
+				items = append(items, "ta:"+typeString(x.AssertedType, q))
 			case ssa.CallInstruction:
 				c := x.Common()
 				if c.IsInvoke() {
 					items = append(items, "inv:"+c.Method.Name())
 				} else if sc := c.StaticCallee(); sc != nil {
 					if p.InModule(sc) {
-						s := types.TypeString(sc.Signature, q)
+						s := typeString(sc.Signature, q)
 						if r := sc.Signature.Recv(); r != nil {
-							s = types.TypeString(r.Type(), q) + "." + s
+							s = typeString(r.Type(), q) + "." + s
 						}
 						items = append(items, "mc:"+s)
 					} else {
@@ -121,6 +121,7 @@ func (p *Prog) resolveRenames() []string {
 		return nil
 	}
 	sort.Strings(missing)
+	defer p.resolveParserError(have)
 	byFP := map[string][]*ssa.Function{}
 	for k, fn := range have {
 		if _, expected := expectedFuncs[k]; expected || fn.Parent() != nil || fn.Blocks == nil {
@@ -142,4 +143,43 @@ func (p *Prog) resolveRenames() []string {
 		}
 	}
 	return notes
+}
+
+// resolveParserError: the parser's error primitive is known by what it does when no function carries its name — the
+// one function of package parser that reports through utils.GlobalErrorToken itself and returns an error (a method of
+// the parser or, when it needs nothing from it, a plain function).
+func (p *Prog) resolveParserError(have map[string]*ssa.Function) {
+	const key = "parser.(*Parser).error"
+	if have[key] != nil {
+		return
+	}
+	for _, k := range canonKey {
+		if k == key {
+			return
+		}
+	}
+	var found []*ssa.Function
+	for _, fn := range p.funcs {
+		if fn.Blocks == nil || fn.Parent() != nil || fn.Synthetic != "" || fn.Package() == nil || fn.Package().Pkg.Name() != "parser" {
+			continue
+		}
+		res := fn.Signature.Results()
+		if res.Len() != 1 || types.TypeString(res.At(0).Type(), nil) != "error" {
+			continue
+		}
+		reports := false
+		instrsOf(fn, func(in ssa.Instruction) {
+			if c, ok := in.(*ssa.Call); ok {
+				if sc := c.Call.StaticCallee(); sc != nil && sc.Package() != nil && sc.Package().Pkg.Name() == "utils" && sc.Name() == "GlobalErrorToken" {
+					reports = true
+				}
+			}
+		})
+		if reports {
+			found = append(found, fn)
+		}
+	}
+	if len(found) == 1 {
+		canonKey[found[0]] = key
+	}
 }
